@@ -505,7 +505,9 @@ func (r *c17SemaRun) doCancel() {
 func runC17Sema(c c17SemaCase, rec *c17Recorder) c17SemaObs {
 	r := &c17SemaRun{c: c, sem: syncutil.NewChanSemaphore(uint(c.cap)), rec: rec}
 	r.ctxs[0] = context.Background()
-	r.ctxs[1], r.cancel = context.WithCancel(context.Background())
+	// the cancellable context carries a cause: Acquire must return ctx.Err(), not the cause
+	ctx1, cancelCause := context.WithCancelCause(context.Background())
+	r.ctxs[1], r.cancel = ctx1, func() { cancelCause(errors.New("C17 harness: cause of the cancellation")) }
 	defer r.cancel()
 	rng := rand.New(rand.NewPCG(c.seed, 0x5E3A))
 	main := c.n
